@@ -278,7 +278,10 @@ def check_M3(ctx, facts, sem=False):
         # bodies that destructure a MembershipChange: read its `left` / `joined` fields
         if any(body_reads_field(facts, b, f) for f in ('left', 'joined')):
             consumers.append(b)
-    ctx.floor('C16.M3', 'membership consumers in the store', len(consumers), 2)
+    if not sem:
+        # (with the consumer summary decided the consumers were found by role — the owners of a channel that carries the delta, in whatever
+        #  form — and this count of bodies that read the delta's fields directly is not a floor of anything)
+        ctx.floor('C16.M3', 'membership consumers in the store', len(consumers), 2)
     fields = [f['name'] for f in facts.adts[DELTA]['variants'][0]['fields']]
     all_ops = {}
     # (the per-consumer clauses below and M4 are decided by the consumer summary C16.SEM when it applies)
